@@ -4,6 +4,7 @@ import PppModel.Lemmas.Utf8
 import PppModel.Lemmas.Ipv4Port
 import PppModel.Lemmas.Ipv6Roundtrip
 import PppModel.Props.C18
+import PppModel.Props.C01
 
 /-!
 # C08 — v1 formatting produces canonical lines that parse back to the same addresses
@@ -300,5 +301,53 @@ example : V1.parseBytes V1.Addresses.unknown.format
     = .ok ⟨[0x50, 0x52, 0x4F, 0x58, 0x59, 0x20, 0x55, 0x4E, 0x4B, 0x4E, 0x4F, 0x57, 0x4E, 0x0D, 0x0A],
       .unknown⟩ :=
   format_parses_back_unknown
+
+/-! ## The RFC 4291 form of "well-formed line", and trailers through the `FromStr` impls -/
+
+/-- **C08 ("a well-formed v1 line").** The formatted text is a line of the v1 grammar with
+the RFC 4291 text forms (`Spec.V1.Ipv6Text`) for the IPv6 addresses — the independent
+specification, not the parser model — and it denotes exactly the formatted value. -/
+theorem format_is_line_text (a : V1.Addresses) : Spec.V1.Line Spec.V1.Ipv6Text a.format a :=
+  (C01.line_iff_text _ _).mp (format_is_line a)
+
+/-- The text `Display` prints for an IPv6 address is an RFC 4291 text of that address. -/
+theorem displayIpv6_is_text (a : Ip6) : Spec.V1.Ipv6Text (StdNet.displayIpv6 a) a :=
+  (StdNet.parseIpv6_iff_text _ _).mp (StdNet.parseIpv6_displayIpv6 a)
+
+/-- **C08 (trailer, `FromStr for Header`).** Whatever text follows the formatted line,
+`str::parse::<Header>` returns the same header: the formatted line and the formatted value. -/
+theorem format_fromStrHeader_with_trailer (a : V1.Addresses) (t : B) (ht : Utf8.valid t = true) :
+    V1.fromStrHeader (a.format ++ t) = .ok ⟨a.format, a⟩ := by
+  simp only [fromStrHeader, format_parses_back_with_trailer_str a t ht, Header.toOwned]
+
+/-- **C08 (trailer, `FromStr for Addresses`).** Whatever text follows the formatted line,
+`str::parse::<Addresses>` returns the formatted value. -/
+theorem format_fromStrAddresses_with_trailer (a : V1.Addresses) (t : B) (ht : Utf8.valid t = true) :
+    V1.fromStrAddresses (a.format ++ t) = .ok a := by
+  simp only [fromStrAddresses, format_parses_back_with_trailer_str a t ht]
+
+/-- **C08 (trailer, all four entry points).** -/
+theorem format_parses_back_with_trailer_all (a : V1.Addresses) (t : B) (ht : Utf8.valid t = true) :
+    V1.parseBytes (a.format ++ t) = .ok ⟨a.format, a⟩ ∧ V1.parseStr (a.format ++ t) = .ok ⟨a.format, a⟩ ∧
+    V1.fromStrHeader (a.format ++ t) = .ok ⟨a.format, a⟩ ∧ V1.fromStrAddresses (a.format ++ t) = .ok a :=
+  ⟨format_parses_back_with_trailer a t, format_parses_back_with_trailer_str a t ht,
+    format_fromStrHeader_with_trailer a t ht, format_fromStrAddresses_with_trailer a t ht⟩
+
+/-- Non-vacuity: a trailer that is text with a multi-byte character (`€GET`), after a TCP6
+line with different source and destination. -/
+example : Utf8.valid [0xE2, 0x82, 0xAC, 0x47, 0x45, 0x54] = true := by decide
+example :=
+  format_parses_back_with_trailer_all (.tcp6
+    { srcAddr := FixB.ofList 16 [0x20, 0x01, 0x0d, 0xb8, 0, 0, 0, 0, 0, 0, 0, 0, 0, 0, 0, 1],
+      srcPort := 443,
+      dstAddr := FixB.ofList 16 [0, 0, 0, 0, 0, 0, 0, 0, 0, 0, 0xff, 0xff, 192, 0, 2, 7],
+      dstPort := 65535 }) [0xE2, 0x82, 0xAC, 0x47, 0x45, 0x54] (by decide)
+
+/-- The trailer hypothesis matters for the text entry points: after a stray continuation
+byte (not text) `TryFrom<&str>`'s model reports `InvalidSuffix` while the byte entry point
+still accepts. -/
+example : V1.parseStr (V1.Addresses.unknown.format ++ [0x82]) = .error .invalidSuffix ∧
+    V1.parseBytes (V1.Addresses.unknown.format ++ [0x82]) =
+      .ok ⟨V1.Addresses.unknown.format, .unknown⟩ := by decide
 
 end C08
